@@ -255,6 +255,9 @@ inductive Call (R : Type) where
   | asum (g : L1Call R)
   | iamax (g : L1Call R)
 
+/-- core.hpp `legal_ld(stride, rows)`: the stride, or the number of rows when that is larger -/
+def legalLd (stride rows : Int) : Int := max stride rows
+
 def isTrans (t : Char) : Bool := t = 'N' || t = 'T' || t = 'C'
 def maxI (a b : Int) : Int := if a ≤ b then b else a
 
